@@ -14,7 +14,7 @@ from ..core import shim as shim_mod
 
 PROPERTY = "C09"
 LEVEL = "exploration"
-RULE = ("runs: algorithms x N in {2,3,4} x G in {1,2,3} (plus N,G in {(5,4),(7,2),(6,3)} default execution with every free choice; thorough: every single deviation) x (parameters, objectives) in {(1,1),(2,2),(2,1)} x unconstrained / always-satisfied / half-satisfied inequality constraint x base streams from VERIF_SEED; "
+RULE = ("runs: algorithms x N in {2,3,4} x G in {1,2,3} (plus long runs N,G in {(4,12),(10,5),(3,20)} and N,G in {(5,4),(7,2),(6,3)}: default execution with every free choice; thorough: every single deviation) x (parameters, objectives) in {(1,1),(2,2),(2,1)} x unconstrained / always-satisfied / half-satisfied inequality constraint x base streams from VERIF_SEED; "
         "choice points = every decision draw (3-way), every sample/choice pick (all alternatives), every objective call (ok / TimeoutError); "
         "all executions with <=1 deviation (thorough <=2), plus scripted runs in which one design fails 4 times in a row; value draws never "
         "deviate (no manufactured coincidences). acceptance step: every population of <=3 (thorough 4) over V3^2 x {F,T} x every offspring x "
@@ -282,6 +282,11 @@ def run(tier, seed):
                     for part in range(nparts):
                         shards.append(("run", name, N, G, nparams, ncosts, s, b, part, nparts))
             shards.append(("script", name, N, G, seed))
+            if (N, G) == (2, 1):       # long runs (cumulative effects): default execution of each base stream
+                for (N2, G2) in ((4, 12), (10, 5), (3, 20)):
+                    for st in streams:
+                        for (npar, nc) in ((2, 2), (1, 1)):
+                            shards.append(("run", name, N2, G2, npar, nc, st, 0, 0, 1))
             if (N, G) == (2, 1):       # beyond the small sizes: one base stream, every single deviation
                 for (N2, G2) in ((5, 4), (7, 2), (6, 3)):
                     for part in range(6):
